@@ -166,13 +166,16 @@ fn run<K: crate::gen::world::Kern<D>, const D: usize>(case: &Case, log: &mut Cas
                     });
                     // "displaced by the perturbation" needs an actual displacement: a coordinate stored
                     // bit for bit as it was given although it lies outside the box was never wrapped
-                    let stored_unwrapped = (0..D).any(|j| v.coords[j].to_bits() == case.pts[i][j].to_bits() && !(case.pts[i][j] >= 0.0 && case.pts[i][j] < case.periods[j]));
+                    // (and nothing else moved: a perturbation displaces every axis, so an axis that only
+                    // looks unwrapped because the displacement happens to equal the period does not count)
+                    let stored_unwrapped = (0..D).any(|j| v.coords[j].to_bits() == case.pts[i][j].to_bits() && !(case.pts[i][j] >= 0.0 && case.pts[i][j] < case.periods[j]))
+                        && (0..D).all(|j| v.coords[j].to_bits() == case.pts[i][j].to_bits() || wrapped_ok(case.pts[i][j], v.coords[j], case.periods[j]).is_ok());
                     if stored_unwrapped {
                         check_vertex(&case.pts[i], &v.coords, &case.periods, "constructed vertex", log);
                     } else if near && (0..D).all(|j| v.coords[j] >= 0.0 && v.coords[j] < case.periods[j]) {
                         log.class("perturbed_vertex");
                     } else if near {
-                        log.violate(Violation::new(ID, "perturbed_out_of_box", "constructed vertex", format!("input {:?} was wrapped and then displaced by the insertion perturbation to {:?}, outside the half-open box {:?}", case.pts[i], v.coords, case.periods)));
+                        log.violate(Violation::new(ID, "perturbed_out_of_box", "constructed vertex", format!("input {:?} was wrapped and then displaced by the insertion perturbation to {:?}, outside the half-open box {:?}", case.pts[i], v.coords, case.periods)).fact("periodic", case.periodic).fact("lands_on_upper_face", (0..D).any(|j| v.coords[j] == case.periods[j] && ToroidalSpace::<D>::new(dom).wrap_coord::<f64>(j, case.pts[i][j]).map_or(false, |w| w >= case.periods[j] * (1.0 - 2f64.powi(-30))))));
                     } else {
                         check_vertex(&case.pts[i], &v.coords, &case.periods, "constructed vertex", log);
                     }
@@ -244,7 +247,7 @@ fn run<K: crate::gen::world::Kern<D>, const D: usize>(case: &Case, log: &mut Cas
         let cert = certify(&s, &CertOpts { levels: Opts::ball(g, true), delaunay: true, convex: true, coverage: false, reference: false });
         for (kind, detail) in cert.problems() {
             let cause = cert.violation_class;
-            log.violate(Violation::new(ID, &format!("result_{kind}"), "build", format!("toroidal(wrapping) result: {detail}")).fact("cause", cause).fact("tiny_facet", cert.convex_min_rel_facet < 1e-4));
+            log.violate(Violation::new(ID, &format!("result_{kind}"), "build", format!("toroidal(wrapping) result: {detail}")).fact("cause", cause).fact("tiny_facet", cert.convex_min_rel_facet < 1e-4).fact("coplanar_input", super::c01::has_cohyperplanar_subset(&s.points())));
             break;
         }
         // later insertions are wrapped the same way
@@ -267,11 +270,12 @@ fn run<K: crate::gen::world::Kern<D>, const D: usize>(case: &Case, log: &mut Cas
                             let d = (w - c[j]).abs();
                             d.min((case.periods[j] - d).abs()) <= 1e-7 * maxl * (D as f64 + 1.0)
                         });
-                        let stored_unwrapped = (0..D).any(|j| c[j].to_bits() == p[j].to_bits() && !(p[j] >= 0.0 && p[j] < case.periods[j]));
+                        let stored_unwrapped = (0..D).any(|j| c[j].to_bits() == p[j].to_bits() && !(p[j] >= 0.0 && p[j] < case.periods[j]))
+                            && (0..D).all(|j| c[j].to_bits() == p[j].to_bits() || wrapped_ok(p[j], c[j], case.periods[j]).is_ok());
                         if stored_unwrapped {
                             check_vertex(p, &c, &case.periods, "inserted vertex", log);
                         } else if near && !(0..D).all(|j| c[j] >= 0.0 && c[j] < case.periods[j]) {
-                            log.violate(Violation::new(ID, "perturbed_out_of_box", "inserted vertex", format!("input {:?} was wrapped and then displaced by the insertion perturbation to {:?}, outside the half-open box {:?}", p, c, case.periods)));
+                            log.violate(Violation::new(ID, "perturbed_out_of_box", "inserted vertex", format!("input {:?} was wrapped and then displaced by the insertion perturbation to {:?}, outside the half-open box {:?}", p, c, case.periods)).fact("periodic", case.periodic).fact("lands_on_upper_face", (0..D).any(|j| c[j] == case.periods[j] && ToroidalSpace::<D>::new(dom).wrap_coord::<f64>(j, p[j]).map_or(false, |w| w >= case.periods[j] * (1.0 - 2f64.powi(-30))))));
                         } else if !near {
                             check_vertex(p, &c, &case.periods, "inserted vertex", log);
                         }
